@@ -522,7 +522,7 @@ func fileRead(L *LState) int {
 	return fileReadAux(L, checkFile(L), 2)
 }
 
-var filebufOptions = []string{"no", "full"}
+var filebufOptions = []string{"no", "full", "line"}
 
 func fileSetVBuf(L *LState) int {
 	var err error
